@@ -32,11 +32,110 @@ def _nt(case: Dict[str, Any], M: Model, stats: List[Dict[str, Any]]) -> bool:
     return len(pooled) >= 2 and feats
 
 
+def _runtime_nested(case: Dict[str, Any]) -> CaseResult:
+    """DAG calls made at RUN time from inside node functions: k nodes of an outer DAG (all in flight together - they
+    meet at a barrier) each call an inner DAG.  Every one of these calls is a DAG call on a finite DAG and has to
+    return.  A stall is a violation only with a structural witness: in three samples one second apart every outer
+    node's thread is inside tawazi's scheduler (the inner call) and no inner node has been entered since."""
+    import sys
+    import threading
+    import time
+    import traceback
+
+    import tawazi
+    from tawazi import Resource
+
+    res = CaseResult()
+    k, mc, res_name = case["k"], case["mc"], case["res"]
+    entered: List[int] = []
+    lock = threading.Lock()
+    barrier = threading.Barrier(k)
+    threads: Dict[int, int] = {}
+
+    def leaf(x: Any) -> Any:
+        with lock:
+            entered.append(1)
+        return ("leaf", x)
+
+    xleaf = tawazi.xn(leaf)
+    xleaf2 = tawazi.xn(lambda a, b: ("sum", a, b))
+
+    @tawazi.dag(max_concurrency=case["inner_mc"])
+    def inner(x: Any) -> Any:
+        return xleaf2(xleaf(x), xleaf(x))
+
+    def caller(i: int) -> Any:
+        threads[i] = threading.get_ident()
+        try:
+            barrier.wait(10)
+        except threading.BrokenBarrierError:
+            pass
+        return ("outer", i, inner(i))
+
+    xcaller = tawazi.xn(caller, resource=Resource(res_name))
+
+    def describe() -> Any:
+        return tuple(xcaller(i) for i in range(k))
+
+    outer = tawazi.dag(describe, max_concurrency=mc, is_async=bool(case.get("async")))
+    out: Dict[str, Any] = {}
+
+    def go() -> None:
+        import asyncio
+
+        try:
+            out["value"] = asyncio.run(outer()) if case.get("async") else outer()
+        except BaseException as e:  # noqa: BLE001
+            out["exc"] = e
+
+    th = threading.Thread(target=go, daemon=True)
+    th.start()
+    th.join(20)
+    res.evals = 1
+    res.nontrivial = True
+    res.cls("runtime-nested-dag-calls")
+    if th.is_alive():
+        stuck = 0
+        for _ in range(3):
+            before = len(entered)
+            frames = sys._current_frames()
+            inside = 0
+            for i, ident in threads.items():
+                fr = frames.get(ident)
+                names = [f.filename for f in traceback.extract_stack(fr)] if fr is not None else []
+                if any("/tawazi/_dag/helpers.py" in n for n in names):
+                    inside += 1
+            time.sleep(1.0)
+            if inside == len(threads) == k and len(entered) == before:
+                stuck += 1
+        if stuck == 3:
+            res.viol("hang-runtime-nested-calls", f"{k} {res_name} nodes (max_concurrency={mc}) each call an inner DAG from inside their function: after 20 s all of them sit in the inner scheduler and no inner node is entered any more ({len(entered)} entered so far)")
+        else:
+            res.inconclusive = "runtime-nested-stall-without-witness"
+        barrier.abort()
+        return res
+    if "exc" in out:
+        res.viol("runtime-nested-raised", f"the outer call raised {type(out['exc']).__name__}: {str(out['exc'])[:200]}")
+    elif out.get("value") != tuple(("outer", i, ("sum", ("leaf", i), ("leaf", i))) for i in range(k)):
+        res.viol("runtime-nested-value", f"returned {out.get('value')!r}")
+    return res
+
+
 def run_case(case: Dict[str, Any]) -> CaseResult:
+    if case.get("family") == "runtime-nested":
+        return _runtime_nested(case)
     return sc.evaluate(case, ORACLES, _nt)
 
 
 def strategy(tier: str) -> Any:
+    from hypothesis import strategies as st
+
+    nested = st.builds(lambda k, extra, r, a, imc: {"family": "runtime-nested", "k": k, "mc": k + extra, "res": r, "async": a, "inner_mc": imc},
+                       st.integers(2, 3), st.integers(0, 1), st.sampled_from(["async-thread", "thread"]), st.booleans(), st.integers(1, 2))
+    return st.one_of(*([_sched_strategy(tier)] * 24 + [nested]))
+
+
+def _sched_strategy(tier: str) -> Any:
     return sc.sched_case(tier=tier, modes=("ctl", "ctl", "free", "ctl-ex"), min_sites=2, max_sites=9, flags=True,
                          seq_rate=0.25, prio=(-2, 4), faults=2, sel_rate=0.2, max_mc=4, profile_rate=0.25,
                          n_setup=2, n_debug=2, setup_call_rate=0.2)
